@@ -219,6 +219,14 @@ def inputs(ctx):
             for numtext in (True, False):
                 ins.append({"id": "nt%d" % n, "fmt": "MicroDVD", "fps": fps, "fps_text": fps_text, "cues": cues, "numtext": numtext})
                 n += 1
+    # MicroDVD rates whose binary double lies above the decimal in the header (23.98, 24.975, 99.9 ...),
+    # at frames whose instant is a whole number of microseconds
+    for fps_text, fn, fd, unit in (("23.98", 2398, 100, 1199), ("24.975", 24975, 1000, 999), ("99.9", 999, 10, 999), ("24.1", 241, 10, 241),
+                                   ("25.1", 251, 10, 251), ("30.3", 303, 10, 303), ("16.67", 1667, 100, 1667)):
+        frames = [(unit * k, unit * (k + 1)) for k in (1, 2, 5, 40)]
+        cues = [{"b": {"kind": "frame", "n": D(a)}, "e": {"kind": "frame", "n": D(b)}, "dur": False, "txt": True} for a, b in frames]
+        ins.append({"id": "fr%d" % n, "fmt": "MicroDVD", "fps": [fn, fd], "fps_text": fps_text, "cues": cues})
+        n += 1
     # DFXP: several divs of one language (own xml:lang or inherited), later divs holding earlier cues:
     # captions come in document order, each with its own instants
     for shape in ([[3, 4], [1, 2]], [[1, 5], [2, 3], [0, 4]], [[2], [1], [3]], [[5, 1], [4]]):
